@@ -189,7 +189,33 @@ def hermitian_configs(tier, hermitian=True):
         add(carrier="A", sizes=[2, 1, 2], spectrum=["0", "0", "1", "2", "2"], terms=[[1]], max_order=3, fd=[0, 2])
         add(carrier="A", sizes=[4], spectrum=["0", "1", "1", "2"], terms=[[1]], max_order=3)
         add(carrier="A", sizes=[1, 1, 1], spectrum=["0", "1", "2"], terms=[[1], [2]], max_order=4)
+        # fifth order on the smallest layouts (exact rational spectra)
+        for sizes in [[1, 1], [1, 2], [2, 1], [1, 1, 1]]:
+            add(carrier="B", sizes=sizes, spectrum=RAT_SPECTRA[sum(sizes)], terms=[[1]], max_order=5)
+        add(carrier="A", sizes=[1, 1], spectrum=["0", "2"], terms=[[1]], max_order=5)
+        for sizes in [[1, 1], [1, 2], [2, 1]]:
+            add(carrier="B", sizes=sizes, spectrum=RAT_SPECTRA_ALT[sum(sizes)], terms=[[1]], max_order=6)
+        for sizes in [[2, 2], [1, 3], [1, 1, 2], [2, 1, 1]]:
+            add(carrier="B", sizes=sizes, spectrum=RAT_SPECTRA[4], terms=[[1]], max_order=5)
+        for sizes in [[3, 3], [2, 4], [2, 2, 2]]:
+            add(carrier="B", sizes=sizes, spectrum=RAT_SPECTRA[6], terms=[[1]], max_order=4)
+        for sizes in ([4, 4], [3, 5], [2, 3, 3]):
+            add(carrier="B", sizes=sizes, spectrum=RAT_SPECTRA[6] + ["33", "54"], terms=[[1]], max_order=3)
+        add(carrier="A", sizes=[3], spectrum=["0", "1", "2"], terms=[[1]], max_order=5)
+        # N = 7
+        for sizes in ([3, 4], [2, 5], [1, 6], [2, 2, 3]):
+            add(carrier="B", sizes=sizes, spectrum=RAT_SPECTRA[6] + ["33"], terms=[[1]], max_order=3)
+        # every symmetric zero-diagonal elimination mask of a 3x3 block, symbolic spectrum through the library's sympy mode
+        for bits in range(1, 8):
+            m = [[0, bits & 1, (bits >> 1) & 1], [bits & 1, 0, (bits >> 2) & 1], [(bits >> 1) & 1, (bits >> 2) & 1, 0]]
+            add(carrier="C", sizes=[3], spectrum="sym", terms=[[1]], max_order=3, fd={"0": m})
+            add(carrier="A", sizes=[3], spectrum=["0", "1", "2"], terms=[[1], [2]], max_order=3, fd={"0": m})
         if not hermitian:
+            # every (also asymmetric) zero-diagonal mask of a 3x3 block on the numeric diagonal solver
+            for bits in range(1, 64):
+                b = [(bits >> k) & 1 for k in range(6)]
+                m = [[0, b[0], b[1]], [b[2], 0, b[3]], [b[4], b[5], 0]]
+                add(carrier="A", sizes=[3], spectrum=["0", "1", "2"], terms=[[1]], max_order=3, fd={"0": m})
             for sizes in compositions_of(4, 3):
                 if len(sizes) > 1:
                     add(carrier="B", sizes=sizes, spectrum=CPLX_SPECTRA[4], terms=[[1], [2]], max_order=3)
